@@ -155,7 +155,7 @@ def run(tier):
                       "oseq": [rng.choice("bad") for _ in range(4)], "refuse_each": i % 3 == 0,
                       "warm": rng.randrange(1, 1 << 30) if i % 2 == 0 else 0, "classes": classes, "walk": i % 2 == 1, "src": "tlc-rotated"})
     # seeded random long histories with random placement and random refusals
-    n_rand, n_ops = (100, 300) if quick else (1000, 600)
+    n_rand, n_ops = (100, 300) if quick else (700, 600)
     rand_plans = []
     for i in range(n_rand):
         big = i % 8 == 0
@@ -179,7 +179,7 @@ def run(tier):
                            "classes": tree, "aligns": [16, 32, 64], "src": "random-tree-heavy"})
     if not quick:
         # every refusal position in 200 fixed seed histories
-        for i in range(200):
+        for i in range(150):
             h = [rng.choice(hists) for _ in range(8)]
             al, rs = random_alphabet(rng, k, nalloc, nresize, big_ok=False)
             ops = []
